@@ -8,6 +8,8 @@
      r                  flatcc_emitter_reset (reply r<number of spare pages kept>)
      y:<i>              flatcc_emitter_recycle_page on the i-th page after E->back (a page not in use)
      Y:<i>              flatcc_emitter_recycle_page on the i-th page counted from E->front (refused for front/back)
+     z                  flatcc_emitter_recycle_page on E->front->prev when that is a spare page
+     c                  flatcc_emitter_clear and carry on with the same struct (reply c<pages still allocated>)
      A:<k>              the k-th page allocation from now on fails (0 = the next one)
      o                  observe: state fields, copy_buffer into an exact-size block (bytes at the CALLER's pointer and
                         returned pointer minus caller's pointer), a too-small copy, get_direct_buffer, get_buffer_size
@@ -21,6 +23,12 @@ static FILE *hx_out;
 #define printf(...) fprintf(hx_out, __VA_ARGS__)
 #include "hx.h"
 #include <stddef.h>
+#include <signal.h>
+#include <unistd.h>
+/* every request runs under a hard limit: a request that does not return (e.g. a page ring that no longer closes) ends the
+   process with HANG on stderr and no reply line, which the driver reports as a violation of that request */
+static void hx_on_alarm(int sig) { static const char m[] = "HANG: request did not finish within the time limit\n"; (void)sig; if (write(2, m, sizeof(m) - 1)) {} _exit(3); }
+#define HX_LIMIT_S 5
 
 static long hx_live = 0, hx_allocs = 0, hx_fail_at = -1;
 static void *hx_page_alloc(size_t n) {
@@ -96,6 +104,7 @@ int main(void) {
     while ((line = hx_getline())) {
         flatcc_emitter_t E; int n, i, failed = 0; long start = 0, end = 0;
         hx_out = open_memstream(&obuf, &olen);
+        signal(SIGALRM, hx_on_alarm); alarm(HX_LIMIT_S);
         n = hx_split(line, tok, 4096);
         if (n == 1 && !strcmp(tok[0], "P")) { printf("%d\n", (int)FLATCC_EMITTER_PAGE_SIZE); goto flush; }
         flatcc_emitter_init(&E);
@@ -122,6 +131,12 @@ int main(void) {
                 for (k = 0; k < idx; ++k) { p = p->next; if (p == E.front) break; }
                 if (k < idx) { printf("nopage"); continue; }
                 printf("%d", flatcc_emitter_recycle_page(&E, p));
+            } else if (t[0] == 'z' && !t[1]) {
+                /* recycle the page directly before E->front when it is a spare page ("valid but pointless") */
+                if (!E.front || E.front->prev == E.back) printf("nopage"); else printf("%d", flatcc_emitter_recycle_page(&E, E.front->prev));
+            } else if (t[0] == 'c' && !t[1]) {
+                /* flatcc_emitter_clear, then the SAME struct is used on without flatcc_emitter_init (application-owned emitter) */
+                flatcc_emitter_clear(&E); start = end = 0; printf("c%ld", hx_live);
             } else if (t[0] == 'A' && t[1] == ':') {
                 hx_fail_at = hx_allocs + atol(t + 2); printf("A");
             } else if (t[0] == 'o' && !t[1]) {
